@@ -686,9 +686,10 @@ class IndexInterp:
             try:
                 f0 = self.ev(e.args[0])
             except AnalysisError:
-                if not isinstance(e.args[0], ast.Name):
+                if not (isinstance(e.args[0], ast.Name) or (isinstance(e.args[0], ast.Attribute) and dotted(e.args[0].value) in ("self", "cls", (self.home or (None, None, None))[2]))):
                     raise
-                f0 = None          # a built-in function passed by name (`map(range, shape)`): called below like a call written in the program
+                f0 = None          # a built-in function passed by name (`map(range, shape)`) or a method of the object taken as a value
+                #                    (`map(self._term, items)`): called below like a call written in the program
             seqs = [self._iterate(self.ev(a), e) for a in e.args[1:]]
             rows = [list(xs) for xs in zip(*seqs)] if e.func.id == "map" else [list(self._iterate(xs, e)) for xs in seqs[0]]
             if isinstance(f0, Closure):
